@@ -122,6 +122,8 @@ def untag(v):
     if isinstance(v, dict):
         if "__converter__" in v:
             d = v["__converter__"]
+            if d.get("blank"):
+                return Converter.__new__(Converter)
             return worlds.make_converter([tuple(r) for r in d["records"]], d["delimiter"], strict=d.get("strict", True))
         if "__record__" in v:
             p, u, ps, us, pat = v["__record__"]
@@ -214,6 +216,8 @@ def decide_item(prop, kind, name, opts, tier, seed, known):
         item["status"] = "proved" if (pr.n_obligations > 0 and not pr.failed) else "undischarged"
         out["obl"], out["dis"] = pr.n_obligations, pr.n_discharged
         out["trusted"] = set(pr.trusted)
+        for smp in pr.samples:
+            smp.pop("raw", None)
         out["by_backend"] = pr.by_backend
         out["samples"] = pr.samples[:2]
         proved = pr.n_obligations > 0 and not pr.failed
@@ -230,7 +234,7 @@ def decide_item(prop, kind, name, opts, tier, seed, known):
         if res is not None:
             item["bounded"] = {"cases": res["cases"], "skipped": res["skipped"], "distinct_ok": res["distinct_ok"], "tier": btier,
                                "label": "bounded stand-in (small-scope, native contracts on the real code); not counted as proved"}
-            out["bounded"] = res
+            out["bounded"] = {"cases": res["cases"], "distinct_ok": res["distinct_ok"]}
             if res["errors"]:
                 out["problems"].append(f"contract of {name} not evaluable natively: {res['errors'][0]}")
             seen_clause = set()
@@ -264,9 +268,13 @@ def run_property(prop, tier, seed):
     loader.load()
     known = load_known()
     items = cone(prop)
-    from concurrent.futures import ThreadPoolExecutor
-    with ThreadPoolExecutor(max_workers=int(os.environ.get("PYVC_ITEM_WORKERS", "4"))) as ex:
-        outs = list(ex.map(lambda it: decide_item(prop, it[0], it[1], it[2], tier, seed, known), items))
+    import multiprocessing as mp
+    nproc = int(os.environ.get("PYVC_ITEM_WORKERS", "5"))
+    if nproc > 1 and len(items) > 1:
+        with mp.get_context("fork").Pool(nproc) as pool:
+            outs = pool.starmap(decide_item, [(prop, it[0], it[1], it[2], tier, seed, known) for it in items], chunksize=1)
+    else:
+        outs = [decide_item(prop, it[0], it[1], it[2], tier, seed, known) for it in items]
     violations, problems, known_hits = [], [], {}
     total_obl = total_dis = bounded_total = bounded_distinct = 0
     samples, trusted, by_backend, ev_items = [], set(), {}, []
